@@ -35,8 +35,10 @@ type IfaceV struct {
 }
 
 type FuncV struct {
-	Fn   *ssa.Function
-	Bind []Val
+	Fn      *ssa.Function
+	Bind    []Val
+	Unknown string           // non-empty: a function value of unknown identity (named after where it was loaded from)
+	Sig     *types.Signature // its signature
 }
 
 type StrV struct {
